@@ -4,6 +4,7 @@ from __future__ import annotations
 import itertools
 from pathlib import Path
 from typing import IO, Iterable, Type, TYPE_CHECKING
+from urllib.parse import unquote
 
 from pydoctor import model
 from pydoctor.extensions import zopeinterface
@@ -117,7 +118,8 @@ class TemplateWriter(IWriter):
             if self.dry_run:
                 self.total_pages += 1
             else:
-                with self.build_directory.joinpath(ob.url).open('wb') as fobj:
+                # The url is percent-encoded, the name of the file it designates is not.
+                with self.build_directory.joinpath(unquote(ob.url)).open('wb') as fobj:
                     self._writeDocsForOne(ob, fobj)
         for o in ob.contents.values():
             self._writeDocsFor(o)
